@@ -173,6 +173,15 @@ class wrapper(dictattr):
             self[_spec] = as_DictArgSpec(getargspec(self[_function]))
         return self[_spec]
 
+    def __eq__(self, other):
+        ## the memo of the function's argument specification is filled by the first request for it and is not part of what a wrapper is
+        if isinstance(other, wrapper):
+            return dict(self, **{_spec : None}) == dict(other, **{_spec : None})
+        return dict.__eq__(self, other)
+
+    def __ne__(self, other):
+        return not self == other
+
     def __repr__(self):
         return '%s(%s)'%(self.__class__.__name__, dict(self - 'wrapper_function_spec'))
 
